@@ -18,6 +18,9 @@ let key_of (s : string) : z * z =
   | _ -> failwith "key"
 let () =
   reg "dc.run" (fun (n :: p :: cn :: torn :: rest) ->
+      (* rmain.ml prints the result lines without flushing; the correspondence driver treats 30 s without a new line
+         as a hang, so push out the previous answers before starting a (possibly slow) case *)
+      flush stdout;
       let rec split acc = function
         | "/" :: r -> (List.rev acc, r)
         | x :: r -> split (x :: acc) r
